@@ -450,6 +450,7 @@ func (c *Controller) reprocessServicesInNamespace(namespace string) {
 
 func (c *Controller) deleteService(svc *model.Service) {
 	c.Lock()
+	prevConv := c.servicesMap[svc.Hostname]
 	delete(c.servicesMap, svc.Hostname)
 	delete(c.nodeSelectorsForServices, svc.Hostname)
 	c.Unlock()
@@ -468,7 +469,10 @@ func (c *Controller) deleteService(svc *model.Service) {
 	shard := model.ShardKeyFromRegistry(c)
 	event := model.EventDelete
 	c.opts.XDSUpdater.SvcUpdate(shard, string(svc.Hostname), svc.Attributes.Namespace, event)
-	if !svc.Attributes.ExportTo.Contains(visibility.None) {
+	// The update that stopped exporting the service is skipped when the delete follows it immediately (the handler
+	// finds the object already gone), so decide by the service as proxies last saw it as well.
+	if !svc.Attributes.ExportTo.Contains(visibility.None) ||
+		(prevConv != nil && !prevConv.Attributes.ExportTo.Contains(visibility.None)) {
 		c.handlers.NotifyServiceHandlers(nil, svc, event)
 	}
 }
